@@ -8,8 +8,8 @@ CONSTANTS
   Stubs <- TriStubs
   Links <- TriLinks
   S = 2
-  T = 6
-  G = 4
+  T = 4
+  G = 2
   R = 1
   Strict = FALSE
   Phases <- Ph12
@@ -17,6 +17,8 @@ CONSTANTS
   Dts <- Dt1
   MaxFails = 0
   D = 0
+  SlowFrom = "r3"
+  SlowTo = "r2"
 INIT Init
 NEXT Next
 VIEW viewE
